@@ -44,6 +44,7 @@ func checkC01(w *World, r *Report) {
 		}
 		reach10 := w.reachableFrom(roots10)
 		checkPooledContainersNotData(w, r, "R01.12")
+		checkLoadersAskedInOrder(w, r, "R01.13")
 		checkSharedCounters(w, r, "R01.10", w.pkgFuncs(), reach10, func(owner string, root ssa.Value) bool {
 			g, isG := root.(*ssa.Global)
 			return isG && !isSyncPool(deref(g.Type()))
